@@ -67,6 +67,39 @@ CHECKS = {
             "differential oracle inside the target.",
             "Reference codec written from the Micheline/data-encoding rules; deprecated tags 0x1c/0x4a are not "
             "asserted (pytezos spells them differently on purpose). Rejection is asserted one-directionally.", "9/C05"),
+    "C33": ("hypothesis PBT, differential vs reference expansion with independently computed expression hashes",
+            "Acyclic constant graphs (chains to depth 5) and scripts with references at leaf/argument/sequence/root "
+            "positions, unknown hashes, reference-free scripts; registry key == reference hash, expansion == reference "
+            "expansion, input not mutated, unknown raises, ContractInterface sees the expanded script.",
+            "Hash = b58('expr', blake2b-256(reference binary encoding)), the same construction C05 validates.", "9/C33"),
+    "C18": ("hypothesis PBT, grammar-generated type/data/code/script Micheline, parse(format(e)) == e in both layouts",
+            "Expressions are generated from a grammar of Michelson types, data, code and scripts (every type primitive, "
+            "every data constructor, every instruction with its argument shape, Tezos-grammar annotations), printed "
+            "inline and multi-line and parsed back.",
+            "Strings are printable ASCII plus newline (Michelson strings); macros are excluded (C19).", "9/C18"),
+    "C06": ("hypothesis PBT, differential vs reference operation encoder + strict reference decoder",
+            "Groups of every current-protocol kind with boundary-valued numeric fields, all address kinds, reserved and "
+            "named entrypoints; forged bytes must equal the reference encoding and decode (strictly, full consumption) "
+            "to the same group; tag table compared.",
+            "Reference codec written from the protocol schema and validated on the 4 recorded groups in "
+            "tests/unit_tests/test_operation/data; reveal proof layout mirrored, not re-derived.", "9/C06"),
+    "C07": ("hypothesis PBT with independent verifiers (cryptography, py_ecc pairing) and single-bit alterations",
+            "Keys of four curves x messages (bytes, hex strings) x alterations (message bit, signature bit/byte with "
+            "valid checksum, other key, other curve, generic/specific prefix): own signature verifies, independent "
+            "verifier accepts, altered triples rejected with ValueError, CHECK_SIGNATURE agrees.",
+            "BLS reference uses py_ecc primitives (same library as pytezos, different entry points): semi-independent. "
+            "BLS cases are few (about 1 s each).", "9/C07"),
+    "C08": ("hypothesis PBT with independent key derivation, address hashing, BIP-39 checksum and PBKDF2 seed",
+            "Public keys vs cryptography/py_ecc derivation, pkh vs own base58+blake2b and HASH_KEY, plain/encrypted "
+            "export-import (seed and 64-byte Ed25519 forms), wrong passphrase rejected, validate_mnemonic iff own "
+            "BIP-39 checksum, from_mnemonic deterministic and equal to an independent PBKDF2 derivation.",
+            "Wordlist data comes from the `mnemonic` package. A BIP-39 seed that is not a valid scalar of the curve "
+            "(common for BLS) may be refused; only determinism is required there.", "9/C08"),
+    "C23": ("hypothesis PBT with independent signature verification over watermark || reference-encoded bytes",
+            "Groups (manager, failing_noop, activate_account, consensus, mixed passes) x keys of four curves x chain "
+            "ids: signature verifies independently under the right watermark, payload and hash recomputed "
+            "independently, mixed passes rejected.",
+            "Forged bytes come from the reference codec of C06 (endorsement: branch || 00 || level).", "9/C23"),
 }
 
 NOT_BUILT = {}
